@@ -285,6 +285,8 @@ def _run_part(chk, prop):
         x = outs[i]
         fk = finding_key_c04(x) if prop == "c04" else None
         hit = next((e for e in known if fk is not None and e["key"] == fk), None)
+        if hit and hit.get("model_reproduces") and i in set(mism):
+            hit = None      # not the recorded behaviour (the model of the code as written does not reproduce this run): a different failure
         if hit:
             if fk not in reported:
                 reported.add(fk)
